@@ -1021,6 +1021,20 @@ def flip_sdvc_case(rows, k=3):
     return out
 
 
+def flip_sdvcflow_case(rows, k=3):
+    out = []
+    for r in rows:
+        if r["row"]["part"] == "kb" and r["out"]["accept"] is False and r["row"]["required"] == "kid" and r["row"]["kb"] == "absent":
+            r = json.loads(json.dumps(r))
+            r["out"]["accept"] = True           # claim that a required key binding may be missing
+            out.append(r)
+            if len(out) >= k:
+                break
+    if not out:
+        raise ToolError("canary: no row with a required but missing key binding")
+    return out
+
+
 def flip_tfr_case(rows, k=3):
     out = []
     for r in rows:
@@ -1071,6 +1085,8 @@ def c16(chk):
     extended_stage(chk, "TimeframeRevocation", "TFR", ".tfr", canary=flip_tfr_case)
     # ... and SD-JWT VC type metadata: schemas along extension chains, claim disclosability policies (SdJwtVcType.tla)
     extended_stage(chk, "SdJwtVcType", "SDVC", ".sdvc", canary=flip_sdvc_case)
+    # ... and the SD-JWT VC token itself: issuer key discovery, validate, presentations, key binding (SdJwtVcFlow.tla)
+    extended_stage(chk, "SdJwtVcFlow", "SDVCFLOW", ".sdvcflow", canary=flip_sdvcflow_case)
     chk.assumptions += ["sd-jwt-payload 0.2 (SdObjectEncoder/Decoder, SHA-256) trusted for disclosure hashing",
                         "the 'no latest bound' rows compare with the current time; iat is chosen decades away from any run"]
 
